@@ -538,8 +538,13 @@ func TestC08Crash(t *testing.T) {
 				torn++
 			}
 			// sometimes the recovery is hit too
-			if rapid.IntRange(0, 2).Draw(rt, "secondLevel") == 0 {
+			// a torn write-ahead file is where a second crash hurts most: always follow it up, early in the recovery
+			afterTornWal := strings.HasPrefix(mode, "torn") && strings.Contains(cr.trace, "flush-write tmp.data")
+			if rapid.IntRange(0, 2).Draw(rt, "secondLevel") == 0 || afterTornWal {
 				k2 := rapid.IntRange(1, 40).Draw(rt, "crashAt2")
+				if afterTornWal {
+					k2 = rapid.IntRange(1, 12).Draw(rt, "crashAt2early")
+				}
 				m2 := modes(rt)
 				r1 := runChild("recover", dir, wlPath, k2, m2, scratch, fmt.Sprintf("rec%da", p))
 				if r1.killed {
